@@ -208,8 +208,9 @@ def _find_local_literal(fn, name):
 
 def settings_values_table(ctx, rule="C02.R3"):
     """{setting: {"type": name, "values": tuple|None|"<expr>"}} from check_settings"""
+    from .util import dict_with_keys
     cs = ctx.ix.func("dateparser.conf:check_settings")
-    lit = _find_local_literal(cs, "settings_values")
+    lit = dict_with_keys(cs, ["DATE_ORDER", "PARSERS"])
     if not isinstance(lit, ast.Dict):
         raise AnalysisError(rule, "check_settings.settings_values is not a dict literal")
     out = {}
@@ -236,11 +237,11 @@ def r3(ctx, chk):
     if keys is None:
         raise AnalysisError(rule, "_DateLocaleParser._parsers is not a dict literal with constant keys")
     cp = ix.func("dateparser.conf:_check_parsers")
-    existing = _find_local_literal(cp, "existing_parsers")
-    try:
-        existing = ast.literal_eval(existing)
-    except Exception:
-        raise AnalysisError(rule, "_check_parsers.existing_parsers is not a literal list")
+    from .util import dict_with_keys, string_list_literals
+    lists = string_list_literals(cp, 3)
+    if len(lists) != 1:
+        raise AnalysisError(rule, "_check_parsers: expected one literal list of parser names, found %d" % len(lists))
+    existing = ast.literal_eval(lists[0])
     defaults = module_literal(ctx.repo, "dateparser_data/settings.py", "default_parsers")
     chk.ob(rule, "PARSERS: dispatch keys %s ⊇ validated names %s" % (sorted(keys), sorted(existing)),
            set(existing) <= set(keys),
@@ -279,7 +280,7 @@ def r3(ctx, chk):
     for fkey, setting in (("dateparser.utils:set_correct_day_from_settings", "PREFER_DAY_OF_MONTH"),
                           ("dateparser.utils:set_correct_month_from_settings", "PREFER_MONTH_OF_YEAR")):
         f = ix.func(fkey)
-        opt = _find_local_literal(f, "options")
+        opt = dict_with_keys(f, ["first", "last"])
         okeys = _dict_literal_keys(opt) if opt is not None else None
         if okeys is None:
             raise AnalysisError(rule, "%s.options is not a dict literal" % fkey)
@@ -312,7 +313,7 @@ def r3(ctx, chk):
            function="check_settings", line=None)
     chart = module_literal(ctx.repo, "dateparser/parser.py", "date_order_chart")
     rdo = ix.func("dateparser.parser:resolve_date_order")
-    cl = _find_local_literal(rdo, "chart_list")
+    cl = dict_with_keys(rdo, ["DMY"])
     clk = _dict_literal_keys(cl) if cl is not None else None
     if clk is None:
         raise AnalysisError(rule, "resolve_date_order.chart_list is not a dict literal")
@@ -352,7 +353,7 @@ def r3(ctx, chk):
            key={"table": "period", "construct": "allowed set"}, file=iv.file, function=iv.qual, line=iv.node.lineno)
     # sentence splitter groups
     sp = ix.func("dateparser.languages.locale:Locale._sentence_split")
-    sd = _find_local_literal(sp, "splitters_dict")
+    sd = dict_with_keys(sp, [1, 2])
     sdk = _dict_literal_keys(sd) if sd is not None else None
     if sdk is None:
         raise AnalysisError(rule, "Locale._sentence_split.splitters_dict is not a dict literal")
